@@ -198,7 +198,7 @@ def features(scn):
         'has_rename_model': 'RenameModel' in ops,
         'name_reuse': reuse,
         'idx_ops': bool(re.search(
-            r'db_index|unique|db_column|ChangeMeta', ops)),
+            r'db_index|unique|db_column|ChangeMeta|:type', ops)),
     }
 
 
